@@ -130,6 +130,11 @@ func (x *gen) size() int {
 		return Pick(x.g, []int{0, 1, 17, 300, 2048, 5000})
 	}
 	r := x.g.Float()
+	if !x.opt.NoBigFiles && x.g.Bool(0.12) {
+		// exactly at, just below and just above the block and buffer sizes
+		// the writers use
+		return Pick(x.g, []int{512, 4096, 32768, 65536, 131072}) + Pick(x.g, []int{-1, 0, 0, 1})
+	}
 	switch {
 	case r < 0.08:
 		return 0
